@@ -1649,8 +1649,9 @@ func (e *executor) executeRowBSIGroupShard(ctx context.Context, index string, c 
 		}
 
 		// LT[E] and GT[E] should return all not-null if selected range fully encompasses valid bsiGroup range.
-		if (cond.Op == pql.LT && value > bsig.Max) || (cond.Op == pql.LTE && value >= bsig.Max) ||
-			(cond.Op == pql.GT && value < bsig.Min) || (cond.Op == pql.GTE && value <= bsig.Min) {
+		// (Every stored value lies within the range of the current bit depth.)
+		if (cond.Op == pql.LT && (value > bsig.Max || value > bsig.bitDepthMax())) || (cond.Op == pql.LTE && (value >= bsig.Max || value >= bsig.bitDepthMax())) ||
+			(cond.Op == pql.GT && (value < bsig.Min || value < bsig.bitDepthMin())) || (cond.Op == pql.GTE && (value <= bsig.Min || value <= bsig.bitDepthMin())) {
 			return frag.notNull()
 		}
 
